@@ -173,3 +173,182 @@ Example C06_example :
   gamma_at TPR (1 # 2) rows [1; 1; 0; 1; 1] (Plus, (e, 0%Z)) == 0 /\
   event_of TPR (mkRow 0 0 (Some 0%Z)) = None.
 Proof. cbv zeta. repeat split; vm_compute; auto. Qed.
+
+(* ================= gamma_vs_metricframe: the last clause of C06 =================
+   For ratio r = 1 and a hard classifier h, the '+' entry of gamma at (event, g) is
+   MetricFrame(metrics=<matching rate>, y_true=y, y_pred=h(X), sensitive_features=g).by_group[g] - .overall
+   and the '-' entry is its negation.  The MetricFrame side is C03's model Fairness.metric_frame on unit weights
+   (mf_of); its cells are the BaseRates (C14) / Fairness (C03) rates of `filter (group = g) rows` (the two
+   `q == spec_of ...` conjuncts restate that).  Guards, all explicit: labels 0/1, h in {0,1}, one prediction per
+   row, and the (event, group) cell occurs -- so every denominator involved is positive (group size; number of
+   label-1 / label-0 rows of the group and overall); no conclusion rests on the totalised x/0 = 0. *)
+From FL Require Import MomentBridge MomentBridge_proofs.
+From FL Require BaseRates Fairness.
+
+(* matching rates: DP -> selection_rate on "all"; TPR -> true_positive_rate on "label=1"; FPR ->
+   false_positive_rate on "label=0"; EO -> both; ERP -> zero_one_loss (= 1 - accuracy_score) on "all" *)
+Theorem C06_matching_metric :
+  matching_metric DP all_code = Some Fairness.BSel /\ matching_metric TPR 1%Z = Some Fairness.BTpr /\
+  matching_metric FPR 0%Z = Some Fairness.BFpr /\ matching_metric EO 1%Z = Some Fairness.BTpr /\
+  matching_metric EO 0%Z = Some Fairness.BFpr /\ matching_metric ERP all_code = Some Fairness.BZol /\
+  (forall k rows c bv g, binary_labels rows -> In ((c, bv), g) (pairs_of k rows) ->
+                         exists b, matching_metric k bv = Some b).
+Proof. exact (conj eq_refl (conj eq_refl (conj eq_refl (conj eq_refl (conj eq_refl (conj eq_refl cell_metric)))))). Qed.
+Print Assumptions C06_matching_metric.
+
+(* no control features, any of the five moments *)
+Theorem C06_gamma_vs_metricframe :
+  forall (k : kind) (bv : Z) (b : Fairness.base) (rows : list row) (h : list Q) (g : Z),
+  matching_metric k bv = Some b ->
+  single_stratum None rows -> binary_labels rows -> length h = length rows -> hard h ->
+  In ((None, bv), g) (pairs_of k rows) ->
+  exists f q o,
+    mf_of b rows h = Some f /\
+    frame_at (map rg rows) f g = Some (Fin q) /\ Fairness.fr_overall f = Fin o /\
+    q == spec_of b (metric_rows_of g rows h) /\ o == spec_of b (metric_rows rows h) /\
+    mf_gap b rows h g = Some (Fin (q + - o)) /\
+    gamma_at k 1 rows h (Plus, ((None, bv), g)) == q - o /\
+    gamma_at k 1 rows h (Minus, ((None, bv), g)) == - (q - o).
+Proof. exact gamma_vs_metricframe. Qed.
+Print Assumptions C06_gamma_vs_metricframe.
+
+(* the five families spelled out *)
+Theorem C06_gamma_vs_metricframe_DemographicParity :
+  forall (rows : list row) (h : list Q) (g : Z),
+  single_stratum None rows -> binary_labels rows -> length h = length rows -> hard h ->
+  In ((None, all_code), g) (pairs_of DP rows) ->
+  exists f q o,
+    mf_of Fairness.BSel rows h = Some f /\
+    frame_at (map rg rows) f g = Some (Fin q) /\ Fairness.fr_overall f = Fin o /\
+    gamma_at DP 1 rows h (Plus, ((None, all_code), g)) == q - o /\
+    gamma_at DP 1 rows h (Minus, ((None, all_code), g)) == - (q - o).
+Proof. exact gvm_demographic_parity. Qed.
+Print Assumptions C06_gamma_vs_metricframe_DemographicParity.
+
+Theorem C06_gamma_vs_metricframe_TruePositiveRateParity :
+  forall (rows : list row) (h : list Q) (g : Z),
+  single_stratum None rows -> binary_labels rows -> length h = length rows -> hard h ->
+  In ((None, 1%Z), g) (pairs_of TPR rows) ->
+  exists f q o,
+    mf_of Fairness.BTpr rows h = Some f /\
+    frame_at (map rg rows) f g = Some (Fin q) /\ Fairness.fr_overall f = Fin o /\
+    gamma_at TPR 1 rows h (Plus, ((None, 1%Z), g)) == q - o /\
+    gamma_at TPR 1 rows h (Minus, ((None, 1%Z), g)) == - (q - o).
+Proof. exact gvm_true_positive_rate_parity. Qed.
+Print Assumptions C06_gamma_vs_metricframe_TruePositiveRateParity.
+
+Theorem C06_gamma_vs_metricframe_FalsePositiveRateParity :
+  forall (rows : list row) (h : list Q) (g : Z),
+  single_stratum None rows -> binary_labels rows -> length h = length rows -> hard h ->
+  In ((None, 0%Z), g) (pairs_of FPR rows) ->
+  exists f q o,
+    mf_of Fairness.BFpr rows h = Some f /\
+    frame_at (map rg rows) f g = Some (Fin q) /\ Fairness.fr_overall f = Fin o /\
+    gamma_at FPR 1 rows h (Plus, ((None, 0%Z), g)) == q - o /\
+    gamma_at FPR 1 rows h (Minus, ((None, 0%Z), g)) == - (q - o).
+Proof. exact gvm_false_positive_rate_parity. Qed.
+Print Assumptions C06_gamma_vs_metricframe_FalsePositiveRateParity.
+
+Theorem C06_gamma_vs_metricframe_EqualizedOdds :
+  forall (rows : list row) (h : list Q) (g : Z),
+  single_stratum None rows -> binary_labels rows -> length h = length rows -> hard h ->
+  (In ((None, 1%Z), g) (pairs_of EO rows) ->
+   exists f q o,
+     mf_of Fairness.BTpr rows h = Some f /\
+     frame_at (map rg rows) f g = Some (Fin q) /\ Fairness.fr_overall f = Fin o /\
+     gamma_at EO 1 rows h (Plus, ((None, 1%Z), g)) == q - o /\
+     gamma_at EO 1 rows h (Minus, ((None, 1%Z), g)) == - (q - o)) /\
+  (In ((None, 0%Z), g) (pairs_of EO rows) ->
+   exists f q o,
+     mf_of Fairness.BFpr rows h = Some f /\
+     frame_at (map rg rows) f g = Some (Fin q) /\ Fairness.fr_overall f = Fin o /\
+     gamma_at EO 1 rows h (Plus, ((None, 0%Z), g)) == q - o /\
+     gamma_at EO 1 rows h (Minus, ((None, 0%Z), g)) == - (q - o)).
+Proof. exact gvm_equalized_odds. Qed.
+Print Assumptions C06_gamma_vs_metricframe_EqualizedOdds.
+
+Theorem C06_gamma_vs_metricframe_ErrorRateParity :
+  forall (rows : list row) (h : list Q) (g : Z),
+  single_stratum None rows -> binary_labels rows -> length h = length rows -> hard h ->
+  In ((None, all_code), g) (pairs_of ERP rows) ->
+  exists f q o,
+    mf_of Fairness.BZol rows h = Some f /\
+    frame_at (map rg rows) f g = Some (Fin q) /\ Fairness.fr_overall f = Fin o /\
+    gamma_at ERP 1 rows h (Plus, ((None, all_code), g)) == q - o /\
+    gamma_at ERP 1 rows h (Minus, ((None, all_code), g)) == - (q - o).
+Proof. exact gvm_error_rate_parity. Qed.
+Print Assumptions C06_gamma_vs_metricframe_ErrorRateParity.
+
+(* with control features: the entries of control stratum c are by_group - overall of the MetricFrame of the rows
+   of stratum c alone (MetricFrame(..., control_features=c) reports exactly these blocks) *)
+Theorem C06_gamma_vs_metricframe_control :
+  forall (k : kind) (bv : Z) (b : Fairness.base) (rows : list row) (h : list Q) (c : option Z) (g : Z),
+  matching_metric k bv = Some b ->
+  binary_labels rows -> length h = length rows -> hard h ->
+  In ((c, bv), g) (pairs_of k rows) ->
+  let rows_c := stratum_rows c rows in
+  let h_c := stratum_vec c rows h in
+  exists f q o,
+    mf_of b rows_c h_c = Some f /\
+    frame_at (map rg rows_c) f g = Some (Fin q) /\ Fairness.fr_overall f = Fin o /\
+    q == spec_of b (metric_rows_of g rows_c h_c) /\ o == spec_of b (metric_rows rows_c h_c) /\
+    mf_gap b rows_c h_c g = Some (Fin (q + - o)) /\
+    gamma_at k 1 rows h (Plus, ((c, bv), g)) == q - o /\
+    gamma_at k 1 rows h (Minus, ((c, bv), g)) == - (q - o).
+Proof. exact gamma_vs_metricframe_control. Qed.
+Print Assumptions C06_gamma_vs_metricframe_control.
+
+(* the statement in the shape the correspondence run evaluates (MomentBridgeIO.run_bridge): EVERY entry of the
+   index, any moment, with or without control features *)
+Theorem C06_gamma_vs_metricframe_index :
+  forall (k : kind) (rows : list row) (h : list Q) (s : sign) (e : event) (g : Z),
+  binary_labels rows -> length h = length rows -> hard h ->
+  In (s, (e, g)) (index k rows) ->
+  exists d, bridge_entry k rows h (s, (e, g)) = Some (Fin d) /\
+            gamma_at k 1 rows h (Plus, (e, g)) == d /\ gamma_at k 1 rows h (Minus, (e, g)) == - d.
+Proof. exact bridge_entry_spec. Qed.
+Print Assumptions C06_gamma_vs_metricframe_index.
+
+(* MeanLoss (ConditionalLossMoment with no_groups=True): one constraint, the mean clipped loss over all rows *)
+Theorem C06_mean_loss_spec :
+  forall (l : loss) (rows : list lrow) (h : list Q),
+  rows <> [] -> length h = length rows ->
+  mean_loss_index rows = [0%Z] /\
+  mean_loss_gamma l rows h = [qsum (losses l rows h) / inject_nat (length rows)].
+Proof. exact mean_loss_spec. Qed.
+Print Assumptions C06_mean_loss_spec.
+
+(* ErrorRate(costs=...): accepted exactly for a {"fp","fn"} dict of non-negative costs that are not both 0 *)
+Theorem C06_er_config_spec :
+  forall (costs : option (bool * Q * Q)),
+  match costs with
+  | None => er_config costs = Some (1, 1)
+  | Some (keys_ok, fp, fn) =>
+      (er_config costs = Some (fp, fn) <-> keys_ok = true /\ 0 <= fp /\ 0 <= fn /\ ~ (fp == 0 /\ fn == 0)) /\
+      (er_config costs = None <-> ~ (keys_ok = true /\ 0 <= fp /\ 0 <= fn /\ ~ (fp == 0 /\ fn == 0)))
+  end.
+Proof. exact er_config_spec. Qed.
+Print Assumptions C06_er_config_spec.
+
+(* non-vacuity of the bridge: TPR parity, two groups; every guard holds, the cell (label=1, group 0) occurs,
+   TPR_0 - TPR = 1/2 - 2/3 on both sides; and a control-feature instance *)
+Example C06_bridge_example :
+  let rows := [mkRow 1 0 None; mkRow 1 0 None; mkRow 1 1 None; mkRow 0 1 None; mkRow 0 0 None] in
+  let h := [1; 0; 1; 1; 0] in
+  single_stratum None rows /\ binary_labels rows /\ length h = length rows /\ hard h /\
+  In ((None, 1%Z), 0%Z) (pairs_of TPR rows) /\
+  match mf_gap Fairness.BTpr rows h 0%Z with Some (Fin d) => d == - (1 # 6) | _ => False end /\
+  gamma_at TPR 1 rows h (Plus, ((None, 1%Z), 0%Z)) == - (1 # 6) /\
+  let rows2 := [mkRow 1 0 (Some 7%Z); mkRow 0 1 (Some 7%Z); mkRow 0 0 (Some 7%Z); mkRow 1 1 (Some 8%Z);
+                mkRow 0 0 (Some 8%Z)] in
+  In ((Some 7%Z, all_code), 0%Z) (pairs_of DP rows2) /\
+  match bridge_entry DP rows2 h (Plus, ((Some 7%Z, all_code), 0%Z)) with Some (Fin d) => d == (1 # 3) | _ => False end /\
+  gamma_at DP 1 rows2 h (Plus, ((Some 7%Z, all_code), 0%Z)) == 1 # 3.
+Proof.
+  cbv zeta. unfold single_stratum, binary_labels, hard.
+  split; [repeat (apply Forall_cons; [reflexivity|]); apply Forall_nil|].
+  split; [repeat (apply Forall_cons; [first [left; reflexivity | right; reflexivity]|]); apply Forall_nil|].
+  split; [reflexivity|].
+  split; [repeat (apply Forall_cons; [first [left; reflexivity | right; reflexivity]|]); apply Forall_nil|].
+  repeat split; vm_compute; auto.
+Qed.
